@@ -352,13 +352,19 @@ def in_domain(src, tgt):
 
 
 def clash_expected(src, tgt, D):
-    """parts of the source sounding before the common end that the target also has"""
+    """parts of the source sounding before the common end that the target also has (in its chords before the common
+    end: the projection only ever meets those)"""
     t, ps = Fraction(0), []
     for c in src.chords:
         if t < D:
             ps += list(c.score.keys())
         t += Fraction(c.duration)
-    return sorted(set(ps) & set(sound.part_names(tgt)))
+    t, pt = Fraction(0), []
+    for c in tgt.chords:
+        if t < D:
+            pt += list(c.score.keys())
+        t += Fraction(c.duration)
+    return sorted(set(ps) & set(pt))
 
 
 _memo = {}
@@ -405,6 +411,14 @@ def check_total(inp):
             return None
         return {'observed': 'no error' if exc is None else f'{type(exc).__name__}: {exc}',
                 'expected': f'Exception: parts should be different (shared: {clash})'}
+    shared_anywhere = sorted(set(sound.part_names(src)) & set(sound.part_names(tgt)))
+    if exc is not None and type(exc) is Exception and 'parts should be differents' in str(exc) and shared_anywhere \
+            and fl['keep_score'] and not fl['allow_override']:
+        # the two scores do share a part name, only not before their common end: voice-leading mode gathers the parts of
+        # the whole source, so the documented clash error is raised there too.  "Parts should be different between the
+        # scores" is the stated precondition of keep_score; refusing such a pair is inside it (false alarm seen in a
+        # thorough run, on a stretched input)
+        return None
     if exc is not None:
         return {'observed': f'{type(exc).__name__}: {exc}', 'expected': 'a score'}
     from musiclang import Score
